@@ -139,6 +139,8 @@ class Env:
             return typing.Union[tuple(self.py_type(a) for a in T["alts"])]
         if k == "cls":
             return getattr(self.mod, T["n"])
+        if k == "deque":
+            return typing.Deque[self.py_type(T["e"])]
         if k == "obj":      # plain object type: a dataclass of the same shape without conversions
             key = json.dumps(T, sort_keys=True)
             if key not in self.funcs:
@@ -163,6 +165,10 @@ class Env:
             return {key: self.dec(x) for key, x in v["o"]}
         if k == "dict":
             return {self.dec(key): self.dec(x) for key, x in v["o"]}
+        if k == "deque":
+            import collections
+
+            return collections.deque(self.dec(x) for x in v["a"])
         if k == "opq":
             return getattr(self.mod, v["cls"])(v["by"], self.dec(v["v"]))
         if k == "inst":
@@ -249,7 +255,9 @@ def enc(env: Env, x: Any) -> Any:
         return ["opq", type(x).__name__, x.by, enc(env, x.v)]
     if dataclasses.is_dataclass(x) and not isinstance(x, type):
         return ["inst", type(x).__name__, {f.name: enc(env, getattr(x, f.name)) for f in dataclasses.fields(x)}]
-    if isinstance(x, (list, tuple)):
+    import collections
+
+    if isinstance(x, (list, tuple, collections.deque)):
         return [type(x).__name__, [enc(env, y) for y in x]]
     if isinstance(x, dict):
         return ["dict", {k: enc(env, v) for k, v in x.items()}]
